@@ -184,6 +184,8 @@ class C11(PropBase):
         # one name that is bytes-like in one module (carried verbatim by the top-level decode) and a class in the other
         world["modules"][0]["decls"].append({"d": "raw", "n": "VwBlob", "src": "VwBlob = typing.NewType('VwBlob', bytes)\n"})
         world["modules"][1]["decls"].append({"d": "dataclass", "n": "VwBlob", "fields": [{"n": "a", "t": {"k": "str"}}], "flags": {}})
+        # module-level variables whose value is itself a reference (text, or an implicit alias with text inside)
+        world["modules"][0]["decls"].append({"d": "raw", "n": "VwItemRef", "src": "VwItemRef = 'VwSame'\nVwItems = list['VwSame']\nVwMaybeItem = typing.Optional['VwSame']\n"})
         # a recursive class kept on a namespace class, its cycle closed through a NewType / an alias of it
         world["modules"][0]["decls"].append({"d": "raw", "n": "VwTreeNS", "src": (
             "class VwTreeNS:\n    @dataclasses.dataclass\n    class VwNode:\n        v: int\n"
@@ -308,6 +310,17 @@ class C11(PropBase):
                     xw = {"$dict": [["k", {"$dict": [["a", "5"]]}], ["z", 1]]}
                     step = {"op": "transparent", "pos": "root", "dir": "unmarshal", "mod": mods[1], "x": xw, "chain": ["shadowed-module-name-in-signature"],
                             "t_base": tb, "t_wrapped": tw, "cmp": "kz"}
+                elif rng.random() < 0.2:
+                    same = {"k": "ref", "m": mods[0], "n": "VwSame"}
+                    which = rng.choice(["ItemRef", "Items", "MaybeItem"])
+                    inner_b = {"ItemRef": same, "Items": {"k": "list", "a": same}, "MaybeItem": {"k": "union", "sp": "optional", "a": [same, {"k": "none"}]}}[which]
+                    pos2 = rng.choice(["root", "root", "dict", "list"])
+                    tb = at_position(pos2, inner_b)
+                    tw = at_position(pos2, {"k": "fref", "s": "Vw" + which, "m": mods[0]})
+                    one = {"$dict": [["a", "5"]]}
+                    x = wire_at(pos2, {"$list": [one]} if which == "Items" else one)
+                    step = {"op": "transparent", "pos": pos2, "dir": rng.choice(["unmarshal", "unmarshal", "codec"]) if False else "unmarshal", "mod": rng.choice(mods), "x": x,
+                            "chain": ["fref-to-a-variable-holding-a-reference"], "t_base": tb, "t_wrapped": tw}
                 elif rng.random() < 0.25:
                     tb = at_position(pos, {"k": "raw", "src": "vwf.VwPriced"})
                     tw = at_position(pos, {"k": "raw", "src": "VwInvoice"})
